@@ -113,4 +113,66 @@ mod verif_kani_ser_value {
         kani::cover!(r.is_err());
         core::mem::forget(r);
     }
+    // floats: every f64 is kept bit for bit (a NaN stays a NaN; its sign is documented as
+    // discarded); every f32 widens exactly
+    #[kani::proof]
+    #[kani::unwind(8)]
+    fn k6_edit_serialize_f64() {
+        let v: f64 = kani::any();
+        let r = ValueSerializer::new().serialize_f64(v);
+        match &r {
+            Ok(val) => match val.as_float() {
+                Some(x) => {
+                    if v.is_nan() {
+                        assert!(x.is_nan(), "NaN serialized to a number");
+                        assert!(x.is_sign_positive(), "NaN sign not normalised");
+                    } else {
+                        assert!(x.to_bits() == v.to_bits(), "f64 value altered");
+                    }
+                }
+                None => assert!(false, "f64 serialized to a non-float"),
+            },
+            Err(_) => assert!(false, "f64 rejected"),
+        }
+        kani::cover!(r.is_ok() && v.is_nan());
+        kani::cover!(r.is_ok() && v.is_infinite());
+        kani::cover!(r.is_ok() && v == 0.0 && v.is_sign_negative());
+        core::mem::forget(r);
+    }
+
+    #[kani::proof]
+    #[kani::unwind(8)]
+    fn k6_edit_serialize_f32() {
+        let v: f32 = kani::any();
+        let r = ValueSerializer::new().serialize_f32(v);
+        match &r {
+            Ok(val) => match val.as_float() {
+                Some(x) => {
+                    if v.is_nan() {
+                        assert!(x.is_nan(), "NaN serialized to a number");
+                    } else {
+                        assert!(x.to_bits() == (v as f64).to_bits(), "f32 value altered");
+                        assert!(x as f32 == v || v != v, "f32 does not narrow back");
+                    }
+                }
+                None => assert!(false, "f32 serialized to a non-float"),
+            },
+            Err(_) => assert!(false, "f32 rejected"),
+        }
+        kani::cover!(r.is_ok() && !v.is_nan());
+        core::mem::forget(r);
+    }
+
+    #[kani::proof]
+    #[kani::unwind(8)]
+    fn k6_edit_serialize_bool() {
+        let v: bool = kani::any();
+        let r = ValueSerializer::new().serialize_bool(v);
+        match &r {
+            Ok(val) => assert!(val.as_bool() == Some(v), "bool altered"),
+            Err(_) => assert!(false, "bool rejected"),
+        }
+        kani::cover!(r.is_ok());
+        core::mem::forget(r);
+    }
 }
